@@ -121,11 +121,37 @@ Theorem C02_handler_always_answers : forall page rc rt,
 Proof. exact hr_serve_answers. Qed.
 Print Assumptions C02_handler_always_answers.
 
-Theorem C02_connect_handler_total : forall hj ok conn rb,
-  hr_connect hj ok conn rb = HrConn500 \/ hr_connect hj ok conn rb = HrConnNotFound \/
-  (hj = true /\ ok = true /\ conn = true /\ hr_connect hj ok conn rb = HrConnTunnel rb).
+(* connectHandler: three outcomes; a tunnel only when hijack and connection succeeded, and then the
+   backend first receives the serialised request followed by the bytes the client had already sent
+   behind the CONNECT head (nothing is lost; repair eea1e0f) *)
+Theorem C02_connect_handler_total : forall hj ok conn rb early,
+  hr_connect hj ok conn rb early = HrConn500 \/ hr_connect hj ok conn rb early = HrConnNotFound \/
+  (hj = true /\ ok = true /\ conn = true /\ hr_connect hj ok conn rb early = HrConnTunnel (rb ++ early)).
 Proof. exact hr_connect_total. Qed.
 Print Assumptions C02_connect_handler_total.
+
+(* "all sequences of requests on keep-alive connections", for a connection served by a client plugin.
+   REFUTED with useCompression (recorded finding C02:plugin+compression:keepalive-second-request): the
+   second request on the connection gets no answer. *)
+Theorem C02_plugin_keepalive_with_compression_refuted :
+  exists pendings, hk_serve (hk_fresh true) pendings <> map (fun _ => true) pendings /\
+                   hk_serve (hk_fresh true) pendings = [true; false].
+Proof. exact hk_keepalive_refuted. Qed.
+Print Assumptions C02_plugin_keepalive_with_compression_refuted.
+
+(* PARTIAL: excluded is exactly (client plugin, useCompression, a later request on the same connection):
+   without compression every request of every sequence is answered; with compression the first one is. *)
+Theorem C02_plugin_keepalive_partial : forall compressed pendings,
+  (compressed = false -> hk_serve (hk_fresh compressed) pendings = map (fun _ => true) pendings) /\
+  (forall p r, pendings = p :: r -> exists rest, hk_serve (hk_fresh compressed) pendings = true :: rest).
+Proof. exact hk_keepalive_partial. Qed.
+Print Assumptions C02_plugin_keepalive_partial.
+
+(* and with compression nothing is answered after the first request whose background read was interrupted *)
+Theorem C02_plugin_keepalive_compressed_exact : forall p r,
+  hk_serve (hk_fresh true) (p :: r) = true :: (if p then map (fun _ => false) r else hk_serve (hk_fresh true) r).
+Proof. exact hk_keepalive_compressed_exact. Qed.
+Print Assumptions C02_plugin_keepalive_compressed_exact.
 
 (* the rewrite of a request uses only the config of its own route: any other route of the table may
    be replaced (other headers, other Host rewrite) without effect *)
@@ -151,14 +177,14 @@ Theorem C02_plugin_rewrites_spec : forall p o inr out,
 Proof. exact hr_plugin_spec. Qed.
 Print Assumptions C02_plugin_rewrites_spec.
 
-(* REFUTED for http2http: the statement's "X-Forwarded-For extended by the user's address" does not
-   hold behind this plugin — it copies nothing back after the library removed the forwarding headers,
-   so the backend receives no X-Forwarded-For at all (the three other plugins carry it over). *)
-Theorem C02_plugin_http2http_forwarded_for_refuted :
-  exists o inr, hr_get hr_XFF (hq_hdrs inr) <> [] /\ hq_client_ip inr <> None /\ hp_headers o = [] /\
-    forall reenc, hr_get hr_XFF (hq_hdrs (hr_plugin_backend_view HrH2H o reenc inr)) = [].
-Proof. exact hr_plugin_h2h_drops_forwarded. Qed.
-Print Assumptions C02_plugin_http2http_forwarded_for_refuted.
+(* behind http2http and http2https the backend receives the X-Forwarded-For the plugin received, i.e.
+   the one frps extended by the user's address (http2http: since the repair a4afe3b; before it the
+   header was dropped, which this check reported) *)
+Theorem C02_plugin_http2http_keeps_forwarded_for : forall p o reenc inr,
+  p = HrH2H \/ p = HrH2HS -> hr_last_for hr_XFF (hp_headers o) = None ->
+  hr_get hr_XFF (hq_hdrs (hr_plugin_backend_view p o reenc inr)) = hr_get hr_XFF (hq_hdrs inr).
+Proof. exact hr_plugin_h2h_keeps_forwarded. Qed.
+Print Assumptions C02_plugin_http2http_keeps_forwarded_for.
 
 (* hypotheses are satisfiable / the functions compute *)
 Example C02_ex_route : hr_route :=
